@@ -38,7 +38,8 @@ _scratch_counter = [0]
 
 def new_scratch(tag="w"):
     _scratch_counter[0] += 1
-    p = os.path.join(shm_base(), f"mhlmc.{os.getpid()}.{tag}{_scratch_counter[0]}")
+    # (process ids are re-used quickly on a busy machine: the start time keeps the name unique among checks that run side by side)
+    p = os.path.join(shm_base(), f"mhlmc.{os.getpid()}.{int(_time.time() * 1000) % 100000000:08d}.{tag}{_scratch_counter[0]}")
     shutil.rmtree(p, ignore_errors=True)
     os.makedirs(p)
     return p
@@ -79,7 +80,8 @@ def materialise(root, tree, mtimes=None, clean=True):
         return int(t) * 1_000_000_000 + int(round((t - int(t)) * 1e9)) + (T0_FRAC_NS if float(t).is_integer() else 0)
     for p in sorted(tree, reverse=True):
         t = ns(mt.get(p, T0))
-        os.utime(os.path.join(root, p), ns=(t, t))
+        fp = os.path.join(root, p)
+        os.utime(fp, ns=(t, t), follow_symlinks=not os.path.islink(fp) or os.path.exists(fp))
     t = ns(mt.get("", T0))
     os.utime(root, ns=(t, t))
 
